@@ -9,11 +9,12 @@ model (cache / NEW(F) / expected opens / expected targets) is the oracle.
 """
 
 import os
+import weakref
 
 import textx  # noqa
 from textx import metamodel_from_str
 from textx.exceptions import TextXError, TextXSemanticError, TextXSyntaxError
-from textx.scoping import ModelRepository
+from textx.scoping import ModelRepository, Postponed
 import textx.scoping.providers as sp
 
 from ..core import Budget
@@ -288,9 +289,48 @@ def gen_repo_world(t, family):
                     w.refs.append(r)
     for r in w.refs:
         r.key = r.sid()
+    # ---- a scope provider *inside* the ImportURI provider that answers Postponed by itself for drawn references (the
+    # way FQN's scope_redirection_logic or a user's inner provider does): the scope that is asked first is not ready in
+    # the first round - the lookup order (model itself, loaded models, builtin models) must not depend on that
+    w.inner_postponed = set()
+    if family in ("plainuri", "fqnuri", "plainuri-sp", "fqnuri-sp") and t.chance(1, 3, "inner-provider-postpones"):
+        seen_files = set()
+        for i, r in enumerate(w.refs):
+            # the first reference of every file answers at once: the resolver stops at a round without any progress,
+            # so every load has to resolve something in its first round
+            first = r.owner.file not in seen_files
+            seen_files.add(r.owner.file)
+            if t.chance(1, 2, "inner-postpone-ref") and not first:
+                w.inner_postponed.add(i)
     w.render()
     w.install(SIMFS)
+    w.inner_plan = {(r.owner.file, r.pos): 1 for i, r in enumerate(w.refs) if i in w.inner_postponed}
     return w
+
+
+class InnerPostponer:
+    """Scope provider handed to ImportURI as its inner provider.  ImportURI asks it for the referencing model first
+    (obj = the referencing object) and then once per loaded / builtin model (obj = that model's root)."""
+
+    def __init__(self, base, w, ctx):
+        self.base = base
+        self.w = w
+        self.ctx = ctx
+        self.attempts = weakref.WeakKeyDictionary()  # per model object: every (re)load of a file starts afresh
+
+    def __call__(self, obj, attr, obj_ref):
+        m = textx.get_model(obj)
+        if obj is not m:
+            key = (getattr(m, "_tx_filename", None), obj_ref.position)
+            per_model = self.attempts.setdefault(m, {})
+            n = per_model[key] = per_model.get(key, 0) + 1
+            # (not while a reference is scripted to stay unresolvable: the resolver stops at the first round without
+            # progress and reports everything still pending, the expected report would depend on the mix)
+            if n <= self.w.inner_plan.get(key, 0) and not getattr(self.w, "inner_suspended", False):
+                self.ctx.ev("inner-postponed", os.path.basename(key[0] or "<str>"), key[1])
+                self.ctx.stats["probe:inner-provider-postponed"] += 1
+                return Postponed()
+        return self.base(obj, attr, obj_ref)
 
 
 def visible_table(w, p):
@@ -343,7 +383,10 @@ class Sys:
         self.mm.model_param_defs.add("p1", "first parameter")
         self.mm.model_param_defs.add("p2", "second parameter")
         base = None
-        if fam == "plainuri":
+        if getattr(w, "inner_plan", None) and fam in ("plainuri", "fqnuri", "plainuri-sp", "fqnuri-sp"):
+            inner = InnerPostponer(sp.PlainName() if fam in PLAIN else sp.FQN(), w, ctx)
+            base = sp.ImportURI(inner, **({"search_path": list(SEARCH_PATH)} if fam in SP else {"glob_args": gargs}))
+        elif fam == "plainuri":
             base = sp.PlainNameImportURI(glob_args=gargs)
         elif fam == "fqnuri":
             base = sp.FQNImportURI(glob_args=gargs)
@@ -378,7 +421,12 @@ class Sys:
                      "fqnuri": lambda: sp.FQNImportURI(glob_args=gargs),
                      "plainuri-sp": lambda: sp.PlainNameImportURI(search_path=list(SEARCH_PATH)),
                      "fqnuri-sp": lambda: sp.FQNImportURI(search_path=list(SEARCH_PATH))}.get(fam)
-            if base2 is not None:
+            if getattr(w, "inner_plan", None) and base2 is not None:
+                inner2 = InnerPostponer(sp.PlainName() if fam in PLAIN else sp.FQN(), w, ctx)
+                b2 = sp.ImportURI(inner2, **({"search_path": list(SEARCH_PATH)} if fam in SP else {"glob_args": gargs}))
+                self.mm2.register_scope_providers(
+                    {"*.*": ScriptedProvider(b2, self.sched, ctx, on_parsed=self._on_parsed) if wrap else b2})
+            elif base2 is not None:
                 b2 = base2()
                 self.mm2.register_scope_providers(
                     {"*.*": ScriptedProvider(b2, self.sched, ctx, on_parsed=self._on_parsed) if wrap else b2})
@@ -854,6 +902,7 @@ def op_corrupt_cycle(ctx, prop, sysm, w, F, params, cache, famtag, global_repo, 
     elif kind == "modelproc":
         sysm.fail_modelproc_for = "<anon>" if (anon and X == F) else X
     err = None
+    w.inner_suspended = kind == "never"
     try:
         model = do_load(sysm, w, F, params, entry)
         outcome = "ok"
@@ -911,6 +960,7 @@ def op_corrupt_cycle(ctx, prop, sysm, w, F, params, cache, famtag, global_repo, 
                                 f"repository of cached {os.path.relpath(f, ROOT)} holds models of the failed attempt")
                     break
     # ---- repair and reload
+    w.inner_suspended = False
     _undo(w, kind, target, sysm)
     ctx.sample["ops"].append(["repair+load", os.path.relpath(F, ROOT)])
     ok = op_load(ctx, "C18" if prop in ("C18", "C28") else prop, sysm, w, F, params, cache, famtag, global_repo,
